@@ -346,7 +346,18 @@ def _build(rec, mod, producer_fault):
                 kw["charset"] = rec["charset"]
             resp = cls(rec["content"], rec["status"], **kw)
     elif kind == "redirect":
-        resp = mod.RedirectResponse(rec["url"], rec["status"], **kw)
+        target = rec["url"]
+        if len(target) % 2 == 0:
+            # every other target is handed over as a URL object (what Pages does for its directory redirect): the
+            # Location line is the same as for the text, when the object spells the same text
+            try:
+                from baize.datastructures import URL
+                obj = URL(target)
+                if str(obj) == target:
+                    target = obj
+            except Exception:  # noqa
+                pass
+        resp = mod.RedirectResponse(target, rec["status"], **kw)
     elif kind in ("stream", "sse"):
         if kind == "stream":
             items = list(rec["chunks"])
@@ -860,7 +871,7 @@ TEXTS = ["", "hello", "caf\xe9", "中文", "line\nbreak", "emoji \U0001f600", "a
 BLOBS = [b"", b"x", b"\x00\xff\x80", b"hello world", bytes(range(20))]
 MEDIA = [None, None, "text/csv", "application/xml", "text/x-y; q=1", "image/png"]
 URLS = ["/", "/a b", "https://example.org/caf\xe9?x=1&y=2", "/\r\nSet-Cookie: a=b", "/中文", "", "//host/p#frag",
-        "/%7Euser/\x00"]
+        "/%7Euser/\x00", "/\u76ee\u5f55/\u6587\u4ef6", "/\u76ee\u5f55/\u6587\u4ef6?\u540d=\u503c"]
 CHUNK_POOL = [b"", b"a", b"bc", b"\x00\xff", b"hello", b"\r\n", bytes(range(7))]
 STREAM_TYPES = [None, None, "text/plain", "application/x-ndjson", "text/event-stream"]
 EVENT_POOL = [[("data", "hello")], [("event", "tick"), ("data", "1")], [("id", "7"), ("data", "a\nb")], [("retry", 5)],
